@@ -35,9 +35,11 @@ def ext_header(sb, cb, snct, cnct, spelling=0):
             parts.append(k)
         elif spelling == 2:
             parts.append('%s="%s"' % (k, v))
+        elif spelling == 4:
+            parts.append('%s = %s' % (k, v))          # implied LWS of the RFC 2616 grammar that RFC 6455 section 9.1 builds on
         else:
             parts.append('%s=%s' % (k, v))
-    sep = {0: '; ', 1: ';', 2: ' ;  ', 3: '; '}[spelling]
+    sep = {0: '; ', 1: ';', 2: ' ;  ', 3: '; ', 4: ' ; '}[spelling]
     name = 'Sec-WebSocket-Extensions' if spelling != 1 else 'sec-websocket-extensions'
     return ('%s: permessage-deflate%s%s\r\n' % (name, sep if parts else '', sep.join(parts))).encode()
 
@@ -99,7 +101,7 @@ class C06(F.Check):
 
     def rule(self, tier):
         L = 3 if tier == 'thorough' else 2
-        return ('configs: server_max_window_bits x client_max_window_bits in 8..15 x both no_context_takeover flags (256) x 4 header spellings (rotating); '
+        return ('configs: server_max_window_bits x client_max_window_bits in 8..15 x both no_context_takeover flags (256) x 5 header spellings (rotating); '
                 'histories: all sequences of length <= %d over %s; server->client additionally all fragmentations into <= 3 frames at cut points {0,1,n/2,n-1,n}, '
                 'interleaved pings and uncompressed messages, and corruptions. distinct = distinct (config, history kinds, direction)' % (L, KINDS))
 
@@ -226,7 +228,7 @@ class C06(F.Check):
                 cfg = (sb, cb, snct, cnct)
                 res.covered.add('nct' if (snct or cnct) else 'takeover')
                 for kinds in hists:
-                    spelling = count % 4
+                    spelling = count % 5
                     count += 1
                     run, problems = self.c2s(cfg, kinds, spelling)
                     self.account(res, 'c2s', cfg, kinds, spelling, run, problems, {})
